@@ -46,6 +46,7 @@ def build(it: Interp, with_bwd: bool) -> Tuple[AbstractGraph, Dict[str, Obj]]:
     idx = mk("idx", "placeholder", "idx", flt=False)
     n1 = mk("neg", "call_function", E("torch.neg"), (x,), scale="s1", gscale="g1")  # same scale as x
     n2 = mk("view", "call_method", "view", (n1, 4, -1), scale="s1", gscale="g1")  # same scale
+    n2 = mk("transpose", "call_method", "transpose", (n2, 0, 1), scale="s1", gscale="g1")  # third link of a same-scale chain
     n3 = mk("cat", "call_function", E("torch.cat"), ([n2, x],), {"dim": 0}, scale="s2", gscale="g2")  # list of tensors
     n4 = mk("size", "call_method", "size", (n3, 0), flt=False)  # int output, one float input
     n5 = mk("reshape", "call_function", E("torch.reshape"), (n3, (n4, -1)), scale="s2", gscale="g2")  # same scale as cat
@@ -148,7 +149,7 @@ def check(report: Report, repo: Repo) -> None:
         rg = res.attrs.get("_abstract_graph") if isinstance(res, Obj) else None
         report.add("R3-copy-discipline", f"{cons}::returns-copy", rg is not None and rg is not g, f"{lab}: returns a new graph", "copy" if rg is not None and rg is not g else fmt(res), "a copy")
         if rg is not None:
-            removed = ["neg", "view", "reshape"] + ([] if with_bwd else ["gscale_differs"])
+            removed = ["neg", "view", "transpose", "reshape"] + ([] if with_bwd else ["gscale_differs"])
             exp = expected(g, removed, bypass=True)
             report.add("R2-result", cons, got(rg) == exp, f"{lab}: float nodes with exactly one float-tensor input of the same mean |x| (forward and, when recorded, backward) are bypassed; nothing else", got(rg), exp)
         closes = [e for e in it.events if e.kind == "call" and e["callee"] == "math.isclose"]
